@@ -93,6 +93,8 @@ def edit_family(run, replay):
     if prop == "C17":
         models.nni_model(run)
     edit_random(run, prop, nhist, steps, maxtips)
+    if prop in CLI_CASES:
+        cli_stage(run, prop, "TraceEdit.tla", TRACE_CFG % ('"%s"' % prop, "TRUE"))
     return vk.finish(run,
                      rule="model: every transition of the bounded TreeOps model; real code: every TLC-emitted case replayed plus "
                           "seeded random histories of public editing calls on random multifurcating trees; each recorded call is one "
@@ -102,11 +104,31 @@ def edit_family(run, replay):
                                   "TLC, CommunityModules, the Go projection and the reference Newick reader are trusted"])
 
 
+def cli_replay(run, hdr, spec, cfg):
+    parts = hdr.get("case", "").split("-")
+    seed, k = int(parts[1][1:]), int(parts[2][1:])
+    gotree = run.build_gotree()
+    p = os.path.join(run.work, "replay.ndjson")
+    vk.run_driver(run, ["cli", "--prop", run.prop, "--gotree", gotree, "--seed", str(seed), "--from", str(k), "--to", str(k + 1),
+                        "--maxtips", "10", "--out", p], p)
+    r = vk.validate_trace(run, p, spec, cfg)
+    collect(run, [r])
+    run.traces = 1
+    return vk.finish(run, rule="replay of one recorded command-line case on the current /repo")
+
+
+def is_cli_case(hdr):
+    parts = hdr.get("case", "").split("-")
+    return len(parts) == 3 and parts[2][:1] == "c" and parts[2][1:].isdigit() and "model_case" not in hdr
+
+
 def edit_replay(run, path):
     """Re-runs the recorded history (same seed, same history index) on the current /repo and validates it."""
     with open(path) as f:
         hdr = json.loads(f.readline())
     run.replay_of = path
+    if is_cli_case(hdr):
+        return cli_replay(run, hdr, "TraceEdit.tla", TRACE_CFG % ('"%s"' % run.prop, "TRUE"))
     case = hdr.get("case", "")
     if "model_case" in hdr:
         cp = os.path.join(run.work, "cases-replay.ndjson")
@@ -208,7 +230,10 @@ def calc_family(run, replay):
     import models
     models.calc_model(run, prop)
     calc_random(run, prop, n, maxtips)
-    return vk.finish(run, rule=CALC_RULE, assumptions=CALC_ASSUME)
+    cli_stage(run, prop, "TraceCalc.tla", CALC_CFG % ('"%s"' % prop))
+    return vk.finish(run, rule=CALC_RULE + "; the same calls through the commands (compare trees, compute consensus, compute support "
+                     "classical/booster, matrix, brlen cut) on files, outputs parsed back and judged by the same predicates",
+                     assumptions=CALC_ASSUME)
 
 
 def calc_replay(run, path, spec="TraceCalc.tla"):
@@ -216,6 +241,8 @@ def calc_replay(run, path, spec="TraceCalc.tla"):
     with open(path) as f:
         hdr = json.loads(f.readline())
     run.replay_of = path
+    if is_cli_case(hdr):
+        return cli_replay(run, hdr, spec, CALC_CFG % ('"%s"' % run.prop))
     case = hdr.get("case", "")
     p = os.path.join(run.work, "replay.ndjson")
     if "model_case" in hdr:
@@ -252,6 +279,7 @@ def pars_family(run, replay):
     import models
     models.pars_model(run)
     calc_random(run, "C12", n, maxtips)
+    cli_stage(run, "C12", "TraceCalc.tla", CALC_CFG % '"C12"')
     return vk.finish(run,
                      rule="model: every tree of the bound x every tip assignment (state sets when ambiguous) through the transcribed "
                           "passes of ParsModel.tla, design theorems as invariants, every initial state replayed on acr.ParsimonyAcr (three "
@@ -490,6 +518,7 @@ def generator_family(run, replay):
     q, t, mq, mt = CALC_BOUNDS["C16"]
     ncases, mtips = (q, mq) if run.tier == "quick" else (t, mt)
     calc_random(run, "C16", ncases, mtips)
+    cli_stage(run, "C16", "TraceCalc.tla", CALC_CFG % '"C16"')
     return vk.finish(run,
                      rule="model: the insertion machines of GenModel.tla (every choice of insertion branch, invariants: binary tree on the tips "
                           "inserted so far, caterpillar shape) and the lifted uniform machine reaching every labelled topology; real code: "
@@ -969,6 +998,8 @@ def pool_family(run, replay):
     res = vk.parallel([job(i) for i in range(shards)])
     collect(run, res)
     run.traces += sum(r["summary"].get("events", 0) for r in res)
+    # 3. the threaded commands on files (erroneous / other-taxa tree at any position; thread counts)
+    cli_stage(run, "C11", "TracePool.tla", POOL_TRACE_CFG)
     run.extra["free_runs_under_race_detector"] = ncases
     run.extra["race_reports_with_gotree_frames"] = sum(r["summary"].get("races", 0) for r in res)
     run.samples += vk.sample_events(res[0]["path"], 1)
@@ -986,3 +1017,20 @@ def pool_family(run, replay):
                                   "the real goroutines cannot follow (the code no longer has the gates in the modelled order) is a DRIFT note; "
                                   "the run then continues freely and is still judged",
                                   "TBE has no per-worker gate (its workers are anonymous closures): free runs only"])
+
+
+# ------------------------------------------------------------------------------------------------
+# the command-line layer of the edit and calc families (gotree binary built from /repo, one process per call)
+
+CLI_CASES = {"C05": (240, 4000), "C06": (240, 4000), "C07": (240, 4000), "C17": (96, 1600),
+             "C08": (160, 3000), "C09": (160, 3000), "C10": (96, 1600), "C12": (240, 4000), "C14": (240, 4000), "C16": (240, 4000),
+             "C11": (160, 3000)}
+
+
+def cli_stage(run, prop, spec, cfg):
+    gotree = run.build_gotree()
+    q, t = CLI_CASES[prop]
+    n = q if run.tier == "quick" else t
+    res = sharded(run, "cli", prop, n, spec, cfg, extra_args=["--prop", prop, "--gotree", gotree, "--maxtips", "10"], tag="cli", timeout=3000)
+    run.extra["cli_commands_run"] = sum(r["summary"].get("commands_run", 0) for r in res)
+    return res
